@@ -298,7 +298,8 @@ Section Bodies.
       apply AB_maybe_reorg.
       assert (∀ bs m0, AllBodies m0 → AllBodies (fold_left store_validated bs m0)) as Hf.
       { induction bs as [|x bs IH]; intros m0 H0; cbn [fold_left]; [done|].
-        apply IH. by apply AB_insert. }
+        apply IH. unfold store_validated. destruct (has_state m0 x && on_best m0 x); [done|].
+        by apply AB_insert. }
       by apply Hf.
   Qed.
 End Bodies.
@@ -309,20 +310,20 @@ Section Steps.
   Context (m : mgr) (HI : MInv U m) (HB : AllBodies m).
 
   Lemma best_supp x : x ∈ best m → has_supp m x = true ∧ has_state m x = true ∧ has_body m x = true.
-  Proof.
+  Proof using All.
     intros Hx. destruct (I_best U m HI x Hx) as (k & Hk & Hst & Hbs & _).
     pose proof (HB x k Hk) as Hb. unfold has_supp, has_state, has_body. rewrite Hk.
     destruct k as [st bo su]; cbn in *. subst. done.
   Qed.
 
   Lemma tip_in_best : tip m ∈ best m.
-  Proof.
+  Proof using All.
     pose proof (chain_nonempty U _ (I_chain U m HI)). unfold tip.
     destruct (best m); [done|]. cbn. apply elem_of_cons; auto.
   Qed.
 
   Lemma ustep_stop f rest : best m = f :: rest → ustep U m (idx_of U f) = UStop.
-  Proof.
+  Proof using All.
     intros He. unfold ustep. rewrite (tip_index_idx U HWF m (I_chain U m HI)).
     unfold tip. rewrite He. cbn [hd].
     by rewrite (proj2 (index_eqb_eq _ _) eq_refl).
@@ -330,7 +331,7 @@ Section Steps.
 
   Lemma ustep_app pre c f rest :
     best m = pre ++ c :: f :: rest → ustep U m (idx_of U f) = UApp c (idx_of U c).
-  Proof.
+  Proof using All.
     intros He. pose proof (I_chain U m HI) as Hc. rewrite He in Hc.
     pose proof (chain_pos U HWF (pre ++ [c]) f rest) as Hf.
     rewrite <- app_assoc in Hf. specialize (Hf Hc).
@@ -359,11 +360,11 @@ Section Steps.
   Lemma ustep_rev b :
     b ∉ best m → has_supp m b = true → b ≠ genesis →
     ustep U m (idx_of U b) = URev b (idx_of U (par U b)).
-  Proof.
+  Proof using All.
     intros Hnb Hs Hg. unfold ustep.
     assert (index_eqb (idx_of U b) (tip_index m) = false) as ->.
     { unfold idx_of, tip_index, index_eqb. apply andb_false_iff. right. apply N.eqb_neq.
-      intros ->. apply Hnb, tip_in_best. }
+      intros ->. apply Hnb. apply tip_in_best. }
     assert (on_best_idx m (idx_of U b) = false) as ->.
     { unfold on_best_idx, idx_of. destruct (best_at m (hgt U b)) as [b'|] eqn:E; [|done].
       apply N.eqb_neq. intros ->. apply Hnb. eapply best_at_elem; eauto. }
@@ -378,7 +379,7 @@ Section Steps.
   Qed.
 
   Lemma ustep_none : ustep U m None = UApp genesis (idx_of U genesis).
-  Proof.
+  Proof using All.
     destruct (I_chain U m HI) as (l0 & He & _).
     unfold ustep. cbn [index_eqb tip_index on_best_idx negb next_best].
     pose proof (best_at_split m l0 genesis [] He) as Hb. change (N.of_nat (length [])) with 0 in Hb. rewrite Hb.
@@ -467,7 +468,7 @@ Section Loop.
     induction pre1 as [|c p IH] using rev_ind; intros pre2 f rest k r a He Hk.
     - cbn [rev hd]. rewrite app_nil_r. destruct k as [|k]; [done|].
       destruct Hk as [?|[-> _]]; [done|]. cbn [us_loop].
-      by rewrite (ustep_stop U HWF m HI f rest He).
+      by rewrite (ustep_stop U HWF m HI HB f rest He).
     - destruct k as [|k]; [rewrite app_length in Hk; cbn in Hk; lia|].
       cbn [us_loop]. rewrite <- app_assoc in He. cbn [app] in He.
       rewrite (ustep_app U HWF m HI HB (pre2 ++ p) c f rest) by (by rewrite <- app_assoc).
@@ -487,7 +488,7 @@ Section Loop.
     - cbn. by rewrite app_nil_r.
     - cbn [length Nat.add app hd us_loop]. cbn [app lp] in Hl. destruct Hl as (Hg & HUb & Hp & Hl).
       destruct (Hoff b) as [Hnb Hs]; [by left|].
-      rewrite (ustep_rev U HWF m HI b Hnb Hs Hg), Hp.
+      rewrite (ustep_rev U HWF m HI HB b Hnb Hs Hg), Hp.
       rewrite IH; [|done|intros x Hx; apply Hoff; by right].
       by rewrite <- app_assoc.
   Qed.
@@ -561,12 +562,14 @@ Section Loop.
       2:{ intros x Hx. apply Hoff. rewrite <- Hsplit. set_solver. }
       cbn [us_loop app].
       pose proof (fold_revert off1 off2 f (f :: rest) Hl) as Hfr.
-      rewrite Hsplit in Hfr. rewrite <- Hsplit at 2. rewrite <- app_assoc, Hfr. cbn [sub_fold].
+      rewrite Hsplit in Hfr.
+      replace (off ++ f :: rest) with (off1 ++ off2 ++ f :: rest) by (by rewrite app_assoc, Hsplit).
+      rewrite Hfr. cbn [sub_fold].
       eexists. split; [done|]. split; [|split].
       + right. exists off2, f, pre, rest. split_and!; [done| |  |done].
         * by apply lp_app in Hl as [_ ?].
         * intros x Hx. apply Hoff. rewrite <- Hsplit. set_solver.
-      + rewrite dist_wit; [|done|intros x Hx; apply Hoff; rewrite <- Hsplit; set_solver].
+      + rewrite (dist_wit off2 f pre rest); [|done|intros x Hx; apply Hoff; rewrite <- Hsplit; set_solver].
         assert (length off = (length off1 + length off2)%nat) by (by rewrite <- Hsplit, app_length).
         lia.
       + eexists _, _, _. split; [done|]. split; [done|]. cbn [length]. lia.
@@ -619,7 +622,7 @@ Section Loop.
         { intros x Hx. by apply elem_of_nil in Hx. }
         exists s'. split; [done|]. split; [done|]. rewrite Hd, dist_sub0, He, app_length. cbn. lia.
     - destruct (poll_wit off f pre rest k He Hl Hoff) as (s' & Hp & Hs & Hd & _).
-      exists s'. split; [done|]. split; [done|]. rewrite Hd, dist_wit; [done|done|].
+      exists s'. split; [done|]. split; [done|]. rewrite Hd, (dist_wit off f pre rest); [done|done|].
       intros x Hx. by apply Hoff.
   Qed.
 
@@ -628,7 +631,7 @@ Section Loop.
     intros [->|(off & f & pre & rest & He & Hl & Hoff & ->)] Hd.
     - rewrite dist_sub0 in Hd. pose proof (chain_nonempty U _ (I_chain U m HI)).
       destruct (best m); done.
-    - rewrite dist_wit in Hd; [|done|intros x Hx; by apply Hoff].
+    - rewrite (dist_wit off f pre rest) in Hd; [|done|intros x Hx; by apply Hoff].
       destruct off; [|cbn in Hd; lia]. destruct pre; [|cbn in Hd; lia]. cbn [app hd] in *.
       rewrite (tip_index_idx U HWF m (I_chain U m HI)). unfold tip. by rewrite He.
   Qed.
@@ -637,14 +640,14 @@ Section Loop.
   Proof.
     intros [->|(off & f & pre & rest & He & Hl & Hoff & ->)]; [done|].
     rewrite (tip_index_idx U HWF m (I_chain U m HI)). cbn [s_idx s_shadow]. intros [= _ Hh].
-    rewrite dist_wit; [|done|intros x Hx; by apply Hoff].
+    rewrite (dist_wit off f pre rest); [|done|intros x Hx; by apply Hoff].
     destruct off as [|b off].
     - cbn [hd app length] in *. assert (pre = []) as ->; [|by rewrite He].
       pose proof (chain_NoDup U HWF _ (I_chain U m HI)) as Hnd. rewrite He in Hnd.
       destruct pre as [|c pre]; [done|]. unfold tip in Hh. rewrite He in Hh. cbn in Hh. subst c.
       apply NoDup_cons in Hnd as [Hn _]. exfalso. apply Hn. set_solver.
     - exfalso. cbn [hd] in Hh. destruct (Hoff b) as [Hn _]; [by left|].
-      apply Hn. rewrite Hh. by apply tip_in_best.
+      apply Hn. rewrite Hh. by apply (tip_in_best U HWF m HI HB).
   Qed.
 
   (** the index of a subscriber is a block the store holds, with its supplement *)
@@ -652,7 +655,298 @@ Section Loop.
   Proof.
     intros [->|(off & f & pre & rest & He & Hl & Hoff & ->)]; [by left|right].
     exists (hd f off). split; [done|]. destruct off as [|b off]; cbn [hd].
-    - apply (best_supp U m HI HB). rewrite He. set_solver.
+    - apply (best_supp U HWF m HI HB). rewrite He. set_solver.
     - apply Hoff. by left.
   Qed.
 End Loop.
+
+(** ** Histories: polls interleaved with calls on the manager *)
+Section Hist.
+  Context (U : universe) (HWF : WF U).
+
+  Lemma ext_supp L m m' x : ext L m m' → has_supp m x = true → has_supp m' x = true.
+  Proof.
+    intros He (k & Hk & Hb & Hs)%has_supp_true.
+    destruct (He x k Hk) as (k' & Hk' & Hb' & Hs' & _). apply has_supp_true.
+    exists k'. auto.
+  Qed.
+
+  (** a block that is (or was) on the best chain: a subscriber standing there satisfies the
+      invariant *)
+  Lemma SubInv_on_best m pre b rest :
+    best m = pre ++ b :: rest → SubInv U m (Sub (idx_of U b) (b :: rest)).
+  Proof.
+    intros He. right. exists [], b, pre, rest. split_and!; [done|done| |done].
+    intros x Hx. by apply elem_of_nil in Hx.
+  Qed.
+
+  Definition no_prune (o : mop) : Prop := ∀ h, o ≠ Prune h.
+
+  (** the invariant survives every call other than PruneBlocks, whatever it does to the
+      best chain *)
+  Lemma SubInv_mstep m o s :
+    MInv U m → AllBodies m → op_pre U o → no_prune o → SubInv U m s →
+    SubInv U (mstep U m o).1.1 s.
+  Proof.
+    intros HI HB Hpre Hnp [->|(off & f & pre & rest & He & Hl & Hoff & ->)]; [by left|].
+    destruct (mstep_spec U HWF m o HI Hpre) as [H1 _].
+    destruct (mstep U m o) as [[m' out] nt]. cbn.
+    destruct H1 as [(HI' & _ & Hext)|((h & ->) & _)]; [|by destruct (Hnp h)].
+    right. set (sh := off ++ f :: rest).
+    assert (chain U sh) as Hsh.
+    { apply lp_chain; [done|]. pose proof (I_chain U m HI) as Hc. rewrite He in Hc.
+      by apply chain_split_at in Hc as [_ ?]. }
+    assert (∀ x, x ∈ sh → has_supp m' x = true) as Hsupp.
+    { intros x [Hx|Hx]%elem_of_app; eapply ext_supp; eauto.
+      - by apply Hoff.
+      - apply (best_supp U HWF m HI HB). rewrite He. set_solver. }
+    destruct (first_split (λ x, x ∈ best m') sh) as (off' & f' & rest'' & Hsplit & Hf' & Hoff').
+    { exists genesis. split; [|by apply (genesis_on_best U)].
+      destruct Hsh as (l0 & -> & _). set_solver. }
+    apply elem_of_list_split in Hf' as (pre' & rest' & He').
+    rewrite Hsplit in Hsh. destruct (chain_split_at U _ _ _ Hsh) as [Hl' Hc1].
+    pose proof (I_chain U m' HI') as Hc'. rewrite He' in Hc'. apply chain_split_at in Hc' as [_ Hc2].
+    pose proof (chain_det U HWF _ _ Hc1 Hc2 eq_refl) as Heq. simplify_eq.
+    exists off', f', pre', rest'. split_and!; [done|done| |].
+    - intros x Hx. split; [by apply Hoff'|]. apply Hsupp. rewrite Hsplit. set_solver.
+    - f_equal; [|done]. f_equal.
+      rewrite <- (hd_app_cons off f rest genesis), <- (hd_app_cons off' f' rest' genesis).
+      by rewrite Hsplit.
+  Qed.
+
+  Definition hop_ok (h : hop) : Prop :=
+    match h with HOp o => op_pre U o ∧ no_prune o | HPoll _ => True end.
+
+  Record HInv (st : mgr * sub) : Prop := {
+    H_inv : MInv U st.1;
+    H_bodies : AllBodies st.1;
+    H_sub : SubInv U st.1 st.2;
+  }.
+
+  Lemma hstep_inv st h : HInv st → hop_ok h → HInv (hstep U st h).
+  Proof.
+    intros [HI HB HS] Hok. destruct st as [m s], h as [o|max]; cbn in *.
+    - destruct Hok as [Hpre Hnp]. split; cbn.
+      + by apply (mstep_inv U HWF).
+      + by apply AB_mstep.
+      + by apply SubInv_mstep.
+    - destruct (poll_ok U HWF m HI HB s max HS) as (s' & -> & HS' & _). by split.
+  Qed.
+
+  Lemma hrun_from_inv hs : ∀ st, HInv st → Forall hop_ok hs → HInv (hrun_from U st hs).
+  Proof.
+    induction hs as [|h hs IH]; intros st Hst Hok; [done|].
+    apply Forall_cons in Hok as [Hh Hok]. cbn. apply IH; [|done]. by apply hstep_inv.
+  Qed.
+
+  Lemma HInv_init : HInv (init, sub0).
+  Proof. split; cbn; [apply (MInv_init U HWF)|apply AB_init|by left]. Qed.
+
+  Lemma hrun_inv hs : Forall hop_ok hs → HInv (hrun U hs).
+  Proof. apply hrun_from_inv, HInv_init. Qed.
+
+  (** polls are reads: the manager's state is the one its own calls produced *)
+  Lemma hrun_from_mgr hs : ∀ st,
+    (hrun_from U st hs).1 = fold_left (λ m o, (mstep U m o).1.1) (mops_of hs) st.1.
+  Proof.
+    induction hs as [|h hs IH]; intros [m s]; [done|].
+    cbn [hrun_from fold_left mops_of flat_map]. rewrite fold_left_app.
+    change (fold_left (hstep U) hs (hstep U (m, s) h)) with (hrun_from U (hstep U (m, s) h) hs).
+    rewrite IH. unfold mops_of. destruct h as [o|max]; cbn; [done|].
+    by destruct (poll U m s max).
+  Qed.
+
+  Lemma hrun_mgr hs : (hrun U hs).1 = mrun U (mops_of hs).
+  Proof. unfold hrun. by rewrite hrun_from_mgr. Qed.
+
+  (** *** C04_chunk_bounded_contiguous *)
+  Lemma revs_walk_last r : ∀ i b j,
+    revs_walk U i (r ++ [b]) = Some j → j = idx_of U (parent_of U b).
+  Proof.
+    induction r as [|x r IH]; intros i b j; cbn [app revs_walk].
+    - destruct i as [[h b0]|]; [|done]. destruct (b0 =? b); [|done]. by intros [= <-].
+    - destruct i as [[h b0]|]; [|done]. destruct (b0 =? x); [|done]. apply IH.
+  Qed.
+
+  Lemma apps_walk_last m a : ∀ i b l,
+    apps_walk m i (a ++ [b]) = Some l → ∃ h', l = Some (h', b) ∧ best_at m h' = Some b.
+  Proof.
+    induction a as [|x a IH]; intros i b l; cbn [app apps_walk].
+    - destruct (next_best m i) as [[h' b']|] eqn:En; [|done].
+      destruct (b' =? b) eqn:Eb; [|done]. apply N.eqb_eq in Eb as ->. intros [= <-].
+      exists h'. split; [done|]. unfold next_best in En. destruct i as [[h0 b0]|].
+      + destruct (best_at m (h0 + 1)) eqn:E; [|done]. by simplify_eq.
+      + destruct (best_at m 0) eqn:E; [|done]. by simplify_eq.
+    - destruct (next_best m i) as [[h' b']|]; [|done]. destruct (b' =? x); [|done]. apply IH.
+  Qed.
+
+  Lemma idx_after_ok m i r a j l :
+    chain U (best m) → revs_walk U i r = Some j → apps_walk m j a = Some l →
+    idx_after U i r a = l.
+  Proof.
+    intros Hc Hr Ha. unfold idx_after.
+    destruct a as [|b a _] using rev_ind.
+    - cbn in Ha. simplify_eq. cbn [rev].
+      destruct r as [|b r _] using rev_ind; [cbn in *; by simplify_eq|].
+      rewrite rev_app_distr. cbn [rev app]. symmetry. by eapply revs_walk_last.
+    - rewrite rev_app_distr. cbn [rev app].
+      apply apps_walk_last in Ha as (h' & -> & Hb).
+      apply best_at_inv in Hb as (pre & rest & He & ->).
+      rewrite He in Hc. apply (chain_pos U HWF) in Hc. unfold idx_of. by rewrite hgt_ht, Hc.
+  Qed.
+
+  Lemma chunk_bounded_contiguous m i max rus aus l :
+    updates_since U m i max = UOk rus aus l →
+    (length rus + length aus ≤ max)%nat ∧
+    (l = tip_index m ∨ (length rus + length aus)%nat = max) ∧
+    (∃ j, revs_walk U i rus = Some j ∧ apps_walk m j aus = Some l) ∧
+    (∀ b, b ∈ rus ++ aus → has_supp m b = true) ∧
+    (MInv U m → idx_after U i rus aus = l).
+  Proof.
+    intros E. destruct (loop_shape U m max i rus aus l E) as (j & Hr & Ha & Hl & Hs & Hsr & Hsa).
+    split_and!; [done|done|by exists j| |].
+    - intros b [Hb|Hb]%elem_of_app; auto.
+    - intros HI. eapply idx_after_ok; eauto. apply (I_chain U m HI).
+  Qed.
+
+  (** *** C04_catches_up *)
+  Fixpoint polls (m : mgr) (max : nat) (n : nat) (s : sub) : sub :=
+    match n with
+    | O => s
+    | S n' => polls m max n' (match poll U m s max with POk s' => s' | _ => s end)
+    end.
+
+  Lemma polls_reach m max : MInv U m → AllBodies m → (1 ≤ max)%nat →
+    ∀ n s, SubInv U m s → (dist m s ≤ n)%nat → polls m max n s = Sub (tip_index m) (best m).
+  Proof.
+    intros HI HB Hmax. induction n as [|n IH]; intros s HS Hd; cbn [polls].
+    - apply (dist_zero U HWF m HI HB s HS). lia.
+    - destruct (poll_ok U HWF m HI HB s max HS) as (s' & -> & HS' & Hd'). apply IH; [done|lia].
+  Qed.
+
+  Lemma catches_up_quiescent m s max :
+    MInv U m → AllBodies m → SubInv U m s → (1 ≤ max)%nat →
+    (∃ s', poll U m s max = POk s' ∧ SubInv U m s' ∧ dist m s' = (dist m s - max)%nat ∧
+           (s_idx s ≠ tip_index m → (dist m s' < dist m s)%nat)) ∧
+    (dist m s = 0%nat ↔ s_idx s = tip_index m) ∧
+    polls m max (dist m s) s = Sub (tip_index m) (best m).
+  Proof.
+    intros HI HB HS Hmax. split_and!.
+    - destruct (poll_ok U HWF m HI HB s max HS) as (s' & Hp & HS' & Hd).
+      exists s'. split_and!; [done|done|done|]. intros Hne.
+      destruct (dist m s) eqn:E; [|lia].
+      exfalso. apply Hne. by rewrite (dist_zero U HWF m HI HB s HS E).
+    - split.
+      + intros E. by rewrite (dist_zero U HWF m HI HB s HS E).
+      + intros E. by apply (dist_tip U HWF m HI HB s HS E).
+    - by apply polls_reach.
+  Qed.
+
+  (** with interleaved submissions: a poll never fails and never breaks the fold, the
+      invariant holds after every step, and the index is a block the store holds with its
+      supplement *)
+  Lemma catches_up_interleaved hs :
+    Forall hop_ok hs →
+    let st := hrun U hs in
+    SubInv U st.1 st.2 ∧
+    (∀ max, ∃ s', poll U st.1 st.2 max = POk s' ∧ dist st.1 s' = (dist st.1 st.2 - max)%nat) ∧
+    (st.2 = sub0 ∨ ∃ b, s_idx st.2 = idx_of U b ∧ has_supp st.1 b = true).
+  Proof.
+    intros Hok. destruct (hrun_inv hs Hok) as [HI HB HS]. cbn. split_and!; [done| |].
+    - intros max. destruct (poll_ok U HWF _ HI HB _ max HS) as (s' & Hp & _ & Hd). eauto.
+    - by apply (SubInv_held U HWF _ HI HB).
+  Qed.
+
+  (** *** C04_path_is_chain *)
+  Lemma path_is_chain hs :
+    Forall hop_ok hs →
+    let st := hrun U hs in
+    (st.2 = sub0 ∨ (chain U (s_shadow st.2) ∧ s_idx st.2 = idx_of U (hd genesis (s_shadow st.2)))) ∧
+    (s_idx st.2 = tip_index st.1 → s_shadow st.2 = best st.1).
+  Proof.
+    intros Hok. destruct (hrun_inv hs Hok) as [HI HB HS]. cbn. split.
+    - destruct HS as [->|(off & f & pre & rest & He & Hl & Hoff & Hs)]; [by left|right].
+      rewrite Hs. cbn [s_shadow s_idx]. split.
+      + apply lp_chain; [done|]. pose proof (I_chain U _ HI) as Hc. rewrite He in Hc.
+        by apply chain_split_at in Hc as [_ ?].
+      + by rewrite hd_app_cons.
+    - intros E. by apply (dist_tip U HWF _ HI HB _ HS E).
+  Qed.
+
+  (** *** C04_unknown_index_is_error *)
+  Lemma unknown_index_is_error m h b max :
+    MInv U m → known m !! b = None → (1 ≤ max)%nat →
+    updates_since U m (Some (h, b)) max = UErr.
+  Proof.
+    intros HI Hk Hmax. destruct max as [|max]; [lia|]. unfold updates_since. cbn [us_loop].
+    assert (∀ x, x ∈ best m → x ≠ b) as Hnb.
+    { intros x Hx ->. destruct (I_best U m HI b Hx) as (k & Hk' & _). congruence. }
+    unfold ustep.
+    assert (index_eqb (Some (h, b)) (tip_index m) = false) as ->.
+    { cbn. apply andb_false_iff. right. apply N.eqb_neq. intros ->.
+      eapply Hnb; [|done]. pose proof (chain_nonempty U _ (I_chain U m HI)).
+      unfold tip. destruct (best m); [done|]. cbn. by left. }
+    assert (on_best_idx m (Some (h, b)) = false) as ->.
+    { cbn. destruct (best_at m h) as [b'|] eqn:E; [|done]. apply N.eqb_neq.
+      apply Hnb. eapply best_at_elem; eauto. }
+    cbn [negb].
+    destruct (b =? genesis); [done|]. unfold block_and_parent.
+    destruct (U !! b); [|done]. unfold has_body. by rewrite Hk.
+  Qed.
+
+  (** *** C04_notify_iff_tip_changed *)
+  Lemma notify_iff_tip_changed_hist hs o m' out nt :
+    ops_pre U (mops_of hs) → op_pre U o →
+    mstep U (hrun U hs).1 o = (m', out, nt) →
+    (nt = true ↔ tip m' ≠ tip (hrun U hs).1) ∧
+    (∀ s max, (hstep U ((hrun U hs).1, s) (HPoll max)).1 = (hrun U hs).1).
+  Proof.
+    intros Hops Ho E. split.
+    - rewrite hrun_mgr in *. by eapply (notify_iff_tip_changed U HWF).
+    - intros s max. cbn. by destruct (poll U _ s max).
+  Qed.
+
+  Lemma from_any_reached_index :
+    (∀ m pre b rest, best m = pre ++ b :: rest → SubInv U m (Sub (idx_of U b) (b :: rest))) ∧
+    (∀ hs st, HInv st → Forall hop_ok hs → HInv (hrun_from U st hs)).
+  Proof using All. split; [exact SubInv_on_best|exact hrun_from_inv]. Qed.
+End Hist.
+
+(** * Examples: the hypotheses of the theorems are met by a concrete history with a reorg *)
+Module ExU.
+  Import Ex.
+  (** main chain 1-2-3; a subscriber from nothing polls to the tip (max 2, then 7); the fork
+      4-5-7 takes over; the subscriber is now two blocks deep on a stale branch *)
+  Definition hs1 : list hop :=
+    [HOp (AddBlocks [1; 2; 3]); HPoll 2; HPoll 7; HOp (AddBlocks [4; 5; 7])].
+  Example hs1_ok : Forall (hop_ok U) hs1.
+  Proof. repeat constructor; intros h; discriminate. Qed.
+  Example hs1_pre : ops_pre U (mops_of hs1).
+  Proof. repeat constructor. Qed.
+  Example hs1_run :
+    best (hrun U hs1).1 = [7; 5; 4; 1; 0] ∧ (hrun U hs1).2 = Sub (Some (3, 3)) [3; 2; 1; 0].
+  Proof. vm_compute. split; reflexivity. Qed.
+  (** a chunk that ends on a revert, one that crosses the fork point, and the rest *)
+  Example stale_chunk_1 : updates_since U (hrun U hs1).1 (Some (3, 3)) 1 = UOk [3] [] (Some (2, 2)).
+  Proof. vm_compute. reflexivity. Qed.
+  Example stale_chunk_3 : updates_since U (hrun U hs1).1 (Some (3, 3)) 3 = UOk [3; 2] [4] (Some (2, 4)).
+  Proof. vm_compute. reflexivity. Qed.
+  Example stale_dist : dist (hrun U hs1).1 (hrun U hs1).2 = 5%nat.
+  Proof. vm_compute. reflexivity. Qed.
+  Example stale_catches_up :
+    polls U (hrun U hs1).1 2 3 (hrun U hs1).2 = Sub (Some (4, 7)) [7; 5; 4; 1; 0].
+  Proof. vm_compute. reflexivity. Qed.
+  (** an id the store never held *)
+  Example unknown_ex :
+    known (hrun U hs1).1 !! 10 = None ∧ updates_since U (hrun U hs1).1 (Some (3, 10)) 5 = UErr.
+  Proof. vm_compute. split; reflexivity. Qed.
+  (** a block stored but never applied (6: body invalid) is not a subscriber index either *)
+  Example never_applied_ex :
+    updates_since U (mrun U ops2) (Some (4, 6)) 5 = UErr.
+  Proof. vm_compute. reflexivity. Qed.
+  (** the reorg was notified, the failed one was not *)
+  Example notified_ex :
+    (mstep U (hrun U (take 3 hs1)).1 (AddBlocks [4; 5; 7])).2 = true ∧
+    (mstep U (hrun U (take 3 hs1)).1 (AddBlocks [4; 5; 6])).2 = false.
+  Proof. vm_compute. split; reflexivity. Qed.
+End ExU.
